@@ -35,3 +35,36 @@ Definition spec_decode_stream (w h : Z) (c : spec_color) (d : Z) (il : bool) (st
   | Some data => spec_sem w h c d il data
   | None => None
   end.
+
+(* ------------------------------------------------------------------ container (PNG spec section 5) *)
+Definition sbe32 (l : list Z) : Z :=
+  match l with a :: b :: c :: d :: _ => ((a * 256 + b) * 256 + c) * 256 + d | _ => -1 end.
+
+Definition spec_signature : list Z := [137; 80; 78; 71; 13; 10; 26; 10].
+Definition spec_IEND : list Z := [73; 69; 78; 68].
+
+(* strict: every chunk complete, CRC over type and data correct, IEND last with nothing after it *)
+Fixpoint spec_parse_chunks (fuel : nat) (bytes : list Z) : option (list (list Z * list Z)) :=
+  match fuel with
+  | O => None
+  | S f =>
+      if (length bytes <? 12)%nat then None else
+      let len := sbe32 bytes in
+      if (len <? 0) || (lenZ bytes <? 12 + len) then None else
+      let name := firstn 4 (skipn 4 bytes) in
+      let data := firstn (Z.to_nat len) (skipn 8 bytes) in
+      let rest := skipn (Z.to_nat len) (skipn 8 bytes) in
+      if negb (sbe32 rest =? crc32 (name ++ data)) then None else
+      let after := skipn 4 rest in
+      if list_eqb Z.eqb name spec_IEND then
+        match after with [] => Some [(name, data)] | _ => None end
+      else
+        match spec_parse_chunks f after with
+        | Some t => Some ((name, data) :: t)
+        | None => None
+        end
+  end.
+
+Definition spec_parse_png (bytes : list Z) : option (list (list Z * list Z)) :=
+  if list_eqb Z.eqb (firstn 8 bytes) spec_signature
+  then spec_parse_chunks (length bytes) (skipn 8 bytes) else None.
